@@ -122,6 +122,39 @@ pub fn run(reg: &[Box<dyn TypeOps>], cfg: &Cfg, out: &mut dyn Write) {
             emit(&mut ar, &mut ar2, &v, rand_place(&mut rng), it % 3 == 0, Some(&sfx), out);
             // exactly the image at every kind of place
             emit(&mut ar, &mut ar2, &image, Place::End, it % 4 == 1, None, out);
+            // C: corrupt exactly one constrained byte (Bool, enum tag, UTF-8) of the valid image: the error must point at it
+            if sh.constrained() {
+                let mut cs = vec![];
+                constraints(&sh, &image, 0, image.len(), &mut cs);
+                let nc = if cfg.thorough { cs.len() } else { cs.len().min(6) };
+                for k in 0..nc {
+                    let c = if cfg.thorough { cs[k].clone() } else { cs[rng.below(cs.len() as u64) as usize].clone() };
+                    let mut m = image.clone();
+                    let (kind, lo, hi) = match c {
+                        Constraint::Bool(p) => { m[p] = 2 + rng.below(254) as u8; ("invalidData", p, p) }
+                        Constraint::Tag(p, w, be, n) => {
+                            let maxv = if w >= 8 { u64::MAX } else { (1u64 << (8 * w)) - 1 };
+                            if (n as u64) > maxv { continue; }
+                            let v = if rng.chance(1, 2) { n as u64 } else { n as u64 + rng.below(maxv - n as u64 + 1) };
+                            let enc = LenS { size: w, align: 1, be }.encode(v as u128);
+                            m[p..p + w].copy_from_slice(&enc);
+                            ("invalidEnumTag", p, p)
+                        }
+                        Constraint::Utf8(a, b) => {
+                            if b <= a || b > m.len() { continue; }
+                            let i = a + rng.below((b - a) as u64) as usize;
+                            m[i] = 0xff;
+                            ("invalidData", a, i)
+                        }
+                    };
+                    let place = if (PAGE - m.len()) % al == 0 && rng.chance(1, 2) { Place::End } else { Place::Mid(0) };
+                    let a16 = match place { Place::End => (ar.addr_mod(0, 16) + PAGE - m.len() % 16) % 16, Place::Start => ar.addr_mod(0, 16), Place::Mid(o) => (ar.addr_mod(0, 16) + 256 + o % 16) % 16 };
+                    write!(out, "C {} {} {} {} {} {} {} => ", tid, place_char(place), a16, kind, lo, hi, hex(&m)).unwrap();
+                    out.flush().unwrap();
+                    let (_, r) = observe(t.as_ref(), &mut ar, &mut ar2, &m, place, false, None);
+                    writeln!(out, "{}", r).unwrap();
+                }
+            }
             // P: a few explicit prefixes
             for _ in 0..2 {
                 if z > 0 { let k = rng.below(z as u64) as usize; emit(&mut ar, &mut ar2, &image[..k], Place::End, false, None, out); }
